@@ -595,26 +595,29 @@ class DoIPConnection:
 
     async def read_diag_request_raw(self) -> DoIPDiagFrame:
         unexpected_packets: list[tuple[Any, Any]] = []
-        while True:
-            if self.separate_diagnostic_message_queue:
-                return await self._diagnostic_message_queue.get()
-            hdr, payload = await self.read_frame()
-            if not isinstance(payload, DiagnosticMessage):
-                logger.warning(f"expected DoIP DiagnosticMessage, instead got: {hdr} {payload}")
-                unexpected_packets.append((hdr, payload))
-                continue
-            if payload.SourceAddress != self.target_addr or payload.TargetAddress != self.src_addr:
-                logger.warning(
-                    f"DoIP-DiagnosticMessage: unexpected addresses (src:dst); expected {self.src_addr:#04x}:"
-                    + f"{self.target_addr:#04x} but got: {payload.SourceAddress:#04x}:{payload.TargetAddress:#04x}"
-                )
-                unexpected_packets.append((hdr, payload))
-                continue
+        try:
+            while True:
+                if self.separate_diagnostic_message_queue:
+                    return await self._diagnostic_message_queue.get()
+                hdr, payload = await self.read_frame()
+                if not isinstance(payload, DiagnosticMessage):
+                    logger.warning(f"expected DoIP DiagnosticMessage, instead got: {hdr} {payload}")
+                    unexpected_packets.append((hdr, payload))
+                    continue
+                if payload.SourceAddress != self.target_addr or payload.TargetAddress != self.src_addr:
+                    logger.warning(
+                        f"DoIP-DiagnosticMessage: unexpected addresses (src:dst); expected {self.src_addr:#04x}:"
+                        + f"{self.target_addr:#04x} but got: {payload.SourceAddress:#04x}:{payload.TargetAddress:#04x}"
+                    )
+                    unexpected_packets.append((hdr, payload))
+                    continue
 
-            # Do not consume unexpected packets, but re-add them to the queue for other consumers
+                return hdr, payload
+        finally:
+            # Do not consume unexpected packets, but re-add them to the queue for other consumers.
+            # This must also happen when the wait is cancelled (timeout) or fails, otherwise the
+            # frames skipped so far are lost.
             self._requeue(unexpected_packets)
-
-            return hdr, payload
 
     async def read_diag_request(self) -> bytes:
         _, payload = await self.read_diag_request_raw()
@@ -622,58 +625,64 @@ class DoIPConnection:
 
     async def _read_ack(self, prev_data: bytes) -> None:
         unexpected_packets: list[tuple[Any, Any]] = []
-        while True:
-            hdr, payload = await self.read_frame_unsafe()
-            if not isinstance(payload, DiagnosticMessagePositiveAcknowledgement) and not isinstance(
-                payload, DiagnosticMessageNegativeAcknowledgement
-            ):
-                logger.warning(f"expected DoIP positive/negative ACK, instead got: {hdr} {payload}")
-                unexpected_packets.append((hdr, payload))
-                continue
+        try:
+            while True:
+                hdr, payload = await self.read_frame_unsafe()
+                if not isinstance(payload, DiagnosticMessagePositiveAcknowledgement) and not isinstance(
+                    payload, DiagnosticMessageNegativeAcknowledgement
+                ):
+                    logger.warning(f"expected DoIP positive/negative ACK, instead got: {hdr} {payload}")
+                    unexpected_packets.append((hdr, payload))
+                    continue
 
-            if payload.SourceAddress != self.target_addr or payload.TargetAddress != self.src_addr:
-                logger.warning(
-                    f"DoIP-ACK: unexpected addresses (src:dst); expected {self.src_addr:#04x}:{self.target_addr:#04x} "
-                    + f"but got: {payload.SourceAddress:#04x}:{payload.TargetAddress:#04x}"
-                )
-                unexpected_packets.append((hdr, payload))
-                continue
-            if (
-                len(payload.PreviousDiagnosticMessageData) > 0
-                and payload.PreviousDiagnosticMessageData
-                != prev_data[: len(payload.PreviousDiagnosticMessageData)]
-            ):
-                logger.warning("ack: previous data differs from request")
-                logger.warning(
-                    f"DoIP-ACK: got: {payload.PreviousDiagnosticMessageData.hex()} expected {prev_data.hex()}"
-                )
-                unexpected_packets.append((hdr, payload))
-                continue
+                if payload.SourceAddress != self.target_addr or payload.TargetAddress != self.src_addr:
+                    logger.warning(
+                        f"DoIP-ACK: unexpected addresses (src:dst); expected {self.src_addr:#04x}:{self.target_addr:#04x} "
+                        + f"but got: {payload.SourceAddress:#04x}:{payload.TargetAddress:#04x}"
+                    )
+                    unexpected_packets.append((hdr, payload))
+                    continue
+                if (
+                    len(payload.PreviousDiagnosticMessageData) > 0
+                    and payload.PreviousDiagnosticMessageData
+                    != prev_data[: len(payload.PreviousDiagnosticMessageData)]
+                ):
+                    logger.warning("ack: previous data differs from request")
+                    logger.warning(
+                        f"DoIP-ACK: got: {payload.PreviousDiagnosticMessageData.hex()} expected {prev_data.hex()}"
+                    )
+                    unexpected_packets.append((hdr, payload))
+                    continue
 
-            # Do not consume unexpected packets, but re-add them to the queue for other consumers
+                if isinstance(payload, DiagnosticMessageNegativeAcknowledgement):
+                    raise DoIPNegativeAckError(payload.ACKCode)
+                return
+        finally:
+            # Do not consume unexpected packets, but re-add them to the queue for other consumers.
+            # This must also happen when the wait is cancelled (timeout) or fails, otherwise the
+            # frames skipped so far are lost.
             self._requeue(unexpected_packets)
-
-            if isinstance(payload, DiagnosticMessageNegativeAcknowledgement):
-                raise DoIPNegativeAckError(payload.ACKCode)
-            return
 
     async def _read_routing_activation_response(self) -> None:
         unexpected_packets: list[tuple[Any, Any]] = []
-        while True:
-            hdr, payload = await self.read_frame_unsafe()
-            if not isinstance(payload, RoutingActivationResponse):
-                logger.warning(
-                    f"expected DoIP RoutingActivationResponse, instead got: {hdr} {payload}"
-                )
-                unexpected_packets.append((hdr, payload))
-                continue
+        try:
+            while True:
+                hdr, payload = await self.read_frame_unsafe()
+                if not isinstance(payload, RoutingActivationResponse):
+                    logger.warning(
+                        f"expected DoIP RoutingActivationResponse, instead got: {hdr} {payload}"
+                    )
+                    unexpected_packets.append((hdr, payload))
+                    continue
 
-            # Do not consume unexpected packets, but re-add them to the queue for other consumers
+                if payload.RoutingActivationResponseCode != RoutingActivationResponseCodes.Success:
+                    raise DoIPRoutingActivationDeniedError(payload.RoutingActivationResponseCode)
+                return
+        finally:
+            # Do not consume unexpected packets, but re-add them to the queue for other consumers.
+            # This must also happen when the wait is cancelled (timeout) or fails, otherwise the
+            # frames skipped so far are lost.
             self._requeue(unexpected_packets)
-
-            if payload.RoutingActivationResponseCode != RoutingActivationResponseCodes.Success:
-                raise DoIPRoutingActivationDeniedError(payload.RoutingActivationResponseCode)
-            return
 
     async def write_request_raw(self, hdr: GenericHeader, payload: DoIPOutData) -> None:
         async with self._mutex:
